@@ -69,7 +69,7 @@ def required_reach(tier: str) -> dict[str, int]:
             if k != "silence":
                 r[f"cell:{t}:{k}:no-timeout"] = 3
         r[f"recovered:{t}"] = 3
-    r.update({"client.cut-after-pending": 20, "client.second-connection-silent": 10, "client.two-requests.first-failed": 20, "cut.mid-header": 10, "cut.mid-payload": 10, "cut.frame-boundary": 6, "close-twice": 100, "real.cases": 10, "real.recovered": 2})
+    r.update({"client.cut-after-pending": 20, "client.second-connection-silent": 10, "client.two-requests.first-failed": 20, "reconnect-api.peer-back-in-time": 40, "reconnect-api.peer-too-late": 20, "cut.mid-header": 10, "cut.mid-payload": 10, "cut.frame-boundary": 6, "close-twice": 100, "real.cases": 10, "real.recovered": 2})
     return r
 
 
@@ -260,6 +260,58 @@ async def run_client_level(sc: dict[str, Any]) -> dict[str, Any]:
         return out
 
 
+async def run_reconnect_api(sc: dict[str, Any]) -> dict[str, Any]:
+    """BaseTransport.reconnect(timeout): 'attempts to reconnect every 100 ms until at max timeout'. The peer refuses connections until
+    `restart_at` (virtual seconds after the reconnect started)."""
+    loop = asyncio.get_running_loop()
+    gws: list[gateway.Gateway] = []
+    t0 = [loop.time()]
+    cls = transport_class(sc["transport"])
+    out: dict[str, Any] = {}
+    with gateway.GatewayHub(make_factory({**sc, "cut_at": None}, gws, t0)) as hub:
+        tr = await cls.connect(uri(sc["transport"]), timeout=5.0)
+        t0[0] = loop.time()
+        try:
+            tr2 = await tr.reconnect(timeout=sc["reconnect_timeout"])
+            out["res"] = ("ok", None)
+        except BaseException as e:
+            out["res"] = ("exc", type(e).__name__, isinstance(e, ConnectionError), isinstance(e, TimeoutError), repr(e)[:120])
+            tr2 = None
+        out["dur"] = loop.time() - t0[0]
+        if tr2 is not None:
+            out["new_object"] = tr2 is not tr
+            try:
+                await tr2.write(REQ, timeout=2.0)
+                out["reply"] = await tr2.read(timeout=2.0)
+            except BaseException as e:
+                out["exchange_exc"] = type(e).__name__
+            await tr2.close()
+        out["attempts"] = hub.attempts
+    return out
+
+
+def check_reconnect_api(ctx: Any, sc: dict[str, Any], out: dict[str, Any]) -> None:
+    t, d, T = sc["transport"], sc["restart_at"], sc["reconnect_timeout"]
+    w = {"scenario": sc, "out": out}
+    res = out["res"]
+    if d <= T - 0.5:
+        ctx.reach("reconnect-api.peer-back-in-time")
+        if res[0] != "ok":
+            ctx.violation(f"{t}/reconnect-api/fails-although-peer-back-in-time/{res[1]}", f"the peer accepted connections again {d} s after reconnect(timeout={T}) started, but reconnect failed", w)
+        elif out.get("reply") != REPLY:
+            ctx.violation(f"{t}/reconnect-api/new-connection-unusable/{out.get('exchange_exc')}", "the transport returned by reconnect() cannot complete an exchange", w)
+        elif out["dur"] > d + 0.45:
+            ctx.violation(f"{t}/reconnect-api/late", f"reconnect() returned {out['dur']:.2f} s after it started although the peer was back after {d} s (documented: an attempt every 100 ms)", w)
+    elif d >= T + 0.3:
+        ctx.reach("reconnect-api.peer-too-late")
+        if res[0] == "ok":
+            ctx.violation(f"{t}/reconnect-api/succeeds-after-timeout", "reconnect() returned a connection although the peer only came back after the timeout", w)
+        elif not (res[2] or res[3]):
+            ctx.violation(f"{t}/reconnect-api/{res[1]}", "reconnect() fails with something other than a timeout / connection error", w)
+        elif out["dur"] > T + 0.5:
+            ctx.violation(f"{t}/reconnect-api/unbounded", f"reconnect(timeout={T}) took {out['dur']:.2f} s", w)
+
+
 def frame_position(t: str, k: int, pending: bool = False) -> tuple[str, str]:
     """(frame label the cut falls into / 'end', where: boundary|mid-header|mid-payload)"""
     off = 0
@@ -418,7 +470,7 @@ def check_client(ctx: Any, sc: dict[str, Any], out: dict[str, Any]) -> None:
 def one(ctx: Any, sc: dict[str, Any]) -> None:
     total = sum(len(f) for _, f in peer_stream(sc["transport"], sc.get("pending", False)))
     ctx.case(repr(sc), nontrivial=sc["cut_at"] is not None and sc["cut_at"] < total)
-    coro = run_client_level(sc) if sc["level"] == "client" else run_transport_level(sc)
+    coro = run_client_level(sc) if sc["level"] == "client" else run_reconnect_api(sc) if sc["level"] == "reconnect-api" else run_transport_level(sc)
     try:
         out = vtime.run(coro, horizon=HORIZON)
     except vtime.Unbounded:
@@ -433,6 +485,8 @@ def one(ctx: Any, sc: dict[str, Any]) -> None:
     ctx.trace((sc["transport"], sc["level"], sc["kind"], tuple((o["op"], o["res"][0] if o["res"][0] == "ok" else o["res"][1]) for o in out.get("ops", [])), out.get("res", (None, None))[:2]))
     if sc["level"] == "client":
         check_client(ctx, sc, out)
+    elif sc["level"] == "reconnect-api":
+        check_reconnect_api(ctx, sc, out)
     else:
         check_transport(ctx, sc, out)
 
@@ -579,6 +633,17 @@ def run(ctx: Any, params: dict[str, Any]) -> None:
             if ctx.out_of_time():
                 break
         if params["client"]:
+            # BaseTransport.reconnect(timeout) against a peer that is away for a while
+            for T in (1.0, 3.0, 10.0):
+                for d in (0.0, 0.05, 0.35, 0.95, 1.7, 2.45, 4.9, 6.4, 9.3, 12.0):
+                    if abs(d - T) < 0.3 or (T - 0.5 < d < T + 0.3):
+                        continue
+                    one(ctx, {"transport": t, "level": "reconnect-api", "cut_at": None, "kind": "none", "timeout": 2.0, "restart_at": d, "reconnect_timeout": T, "max_retry": 0})
+            if t == "doip":
+                # the client's automatic reconnect of a DoIP transport keeps trying for 10 s
+                for d in (3.1, 6.5, 8.8):
+                    for kind in ("eof", "reset"):
+                        one(ctx, {"transport": t, "level": "client", "cut_at": rng.choice(offsets), "kind": kind, "timeout": 2.0, "restart_at": d, "max_retry": 1})
             # responsePending first, then the connection is lost at every offset of pending + final reply
             pframes = peer_stream(t, True)
             ptotal = sum(len(f) for _, f in pframes)
